@@ -1,5 +1,5 @@
 import GmqttVerif.Proofs.WillTimer
-import GmqttVerif.Generated.Facts
+import GmqttVerif.Generated.WillTimer
 /-!
 # C08, schedules of the delayed-will goroutine (finding F16)
 
